@@ -856,3 +856,83 @@ def offlattice(ctx, family, n, key):
     ctx.notes["off_lattice_comparisons"] = used
     ctx.notes["off_lattice_largest_relative_deviation"] = worst
     return res
+
+
+def realize_mcmc_real(case):
+    """off the lattice for C11: setup_mcmc on a random real-valued problem; model_rv, the observed node's log-density and the
+    ln_likelihood deterministic at a random parameter point against the floating-point transcription of the specification (whose
+    Keplerian column comes from an independent Newton solver - thejoker's pytensor Kepler solver is exercised at generic phases)"""
+    import random as _random
+    import astropy.units as u
+    import pymc as pm
+    import pytensor
+    import thejoker.units as xu
+    from thejoker import JokerSamples, TheJoker
+    from thejoker.data_helpers import validate_prepare_data
+    from . import gauss_oracle as go
+    rnd = _random.Random(case["seed"])
+    c = random_real_config(rnd)
+    L_ = 1 + c["poly"] + c["noff"]
+    ua = random_units(rnd, L_)
+    ua["pprior"] = "d"
+    out = {"id": case["id"], "seed": case["seed"], "c": {k: (v if not isinstance(v, list) or len(v) <= 12 else v[:12]) for k, v in c.items()},
+           "ok": False}
+    try:
+        data, prior, smp, slot_names, shift = build_real(c, ua)
+        kms = u.km / u.s
+        ratio = (1 * kms).to_value(U(ua["data"]))
+        N = len(c["t"])
+        c2 = dict(c)
+        c2["t"] = [x - shift for x in c["t"]]
+        c2["M0"] = (c["M0"] - 2 * np.pi * shift / c["P"])
+        # a full row (theta, x) with random linear parameters, in the sample-side units of this assignment
+        names = ["K"] + slot_names
+        x = [rnd.uniform(-30, 30)] + [rnd.uniform(-20, 20) for _ in slot_names]
+        for kx, nm in enumerate(names):
+            power = int(nm[1:]) if nm.startswith("v") and not nm.startswith("dv") else 0
+            if power:
+                x[kx] = x[kx] / 50.0 ** power
+            su = U(ua["kprior"]) if nm == "K" else U(ua["lin"][kx - 1])
+            smp[nm] = (np.array([x[kx]]) * kms / u.day ** power).to(su / U(ua["slope_t"]) ** power if power else su)
+        joker = TheJoker(prior)
+        merged = validate_prepare_data(data, c["poly"], c["noff"])[0]
+        with prior.model:
+            init = joker.setup_mcmc(data, smp)
+        m = prior.model
+        p = prior.pars
+        inputs = [p[nm] for nm in prior.par_names]
+        f = pytensor.function(inputs, [m["model_rv"], m["ln_likelihood"], pm.logp(m["obs"], np.asarray(merged.rv.value)).sum()],
+                              on_unused_input="ignore")
+        rv, lnl, obslp = f(*[np.float64(np.asarray(init[nm])) for nm in prior.par_names])
+        cur = go.curve(c2, x)
+        scale = max(1.0, float(np.max(np.abs(cur))))
+        out["dev_curve"] = float(np.max(np.abs(np.asarray(rv, dtype=float) / ratio - cur))) / scale
+        var = go.cs(c2)
+        y = np.asarray(c["y"], dtype=float)
+        want = float(np.sum(-0.5 * (np.log(2 * np.pi * var) + (y - cur) ** 2 / var))) - N * math.log(ratio)
+        out["dev_lnlike"] = abs(float(lnl) - want) / max(1.0, abs(want))
+        out["dev_obs"] = abs(float(obslp) - want) / max(1.0, abs(want))
+        out["ok"] = True
+    except Exception as ex:
+        out["exc"] = "%s: %s" % (type(ex).__name__, str(ex)[:200])
+    return out
+
+
+def offlattice_mcmc(ctx, n):
+    from . import core
+    res = core.pmap(realize_mcmc_real, [{"id": "realmcmc-%d" % i, "seed": ctx.seed * 100000 + 13 * i + 5} for i in range(n)], chunksize=1)
+    worst = 0.0
+    for r in res:
+        ctx.count()
+        if not r["ok"]:
+            ctx.fail("C11.OffLatticeProblemRaises", r)
+            continue
+        for k, clause in (("dev_curve", "OffLatticeModelPredictsTheSamplersCurve"), ("dev_obs", "OffLatticeDataTermIsTheJitteredGaussian"),
+                          ("dev_lnlike", "OffLatticeLnLikelihoodDiagnosticIsTheDataTerm")):
+            worst = max(worst, r[k])
+            if not (r[k] <= OFF_TOL):
+                ctx.fail("C11.%s" % clause, r, detail={k: r[k]})
+        ctx.nontrivial(("realmcmc", r["seed"]))
+    ctx.notes["off_lattice_problems"] = len(res)
+    ctx.notes["off_lattice_largest_relative_deviation"] = worst
+    return res
